@@ -27,8 +27,17 @@ def handleBatch (args : List Sexp) : String :=
       let spec := if stop.isSome then none else match q.stmt with
         | .aggregate a => Spec.Agg.batch o q a j fs
         | .select s => Spec.Select.batch o q s j fs
+      -- fourth field: the deviating answer the open finding PREDICTS; `./check` attributes a deviation to the finding only
+      -- when the implementation answered exactly that
+      let pred := if stop.isSome then none else match q.stmt with
+        | .aggregate a => Spec.Agg.predicted o q a j fs
+        | .select _ => none
       match spec with
-      | some (ro, cls) => model ++ " ## " ++ runOutToWire ro ++ " ## " ++ (if cls.isEmpty then "spec-mismatch" else cls)
+      | some (ro, cls) =>
+        model ++ " ## " ++ runOutToWire ro ++ " ## " ++ (if cls.isEmpty then "spec-mismatch" else cls) ++
+          (match pred with
+            | some pr => " ## " ++ runOutToWire pr
+            | none => "")
       | none => model
     | none, _, _, _, _ => "bad-oracles"
     | _, none, _, _, _ => "bad-query"
